@@ -217,6 +217,9 @@ func init() {
 				n = 6
 			}
 			out := pairRaceSpecs("C06", P(), tier, seed, 0, nil)
+			for _, ru := range []string{"haa", "had", "hda", "hdd", "paa", "pad", "pda", "pdd"} {
+				out = append(out, sp("C06", "fixed-reuse/"+ru, seed, P("fixed", "1", "dir", "h", "ord", "a", "gap", "0", "reuse", ru)))
+			}
 			// fixed corner cases first
 			for _, dir := range []string{"h", "p"} {
 				for _, ord := range []string{"a", "d"} {
@@ -471,6 +474,71 @@ func runBrokerPairs(r *h.Run, c h.Conf, kind string) {
 				}
 			}
 		}
+	}
+	// net/rpc: an ID used for a second rendezvous a few seconds after the first
+	// (nothing to close in between: the first connection has simply been used)
+	if kind == "mux" && (r.Spec.P("reuse", "") != "" || (r.Spec.P("fixed", "") != "1" && w.Range("reuse/on", 3) == 0)) {
+		inj0 := w.InjectedTotal()
+		hostAccepts := w.Range("reuse/dir", 2) == 0
+		firstAcceptFirst := w.Range("reuse/ord1", 2) == 0
+		secondAcceptFirst := w.Range("reuse/ord2", 2) == 0
+		wait := []time.Duration{3200, 3900, 4400, 4800}[w.Range("reuse/wait", 4)] * time.Millisecond
+		gap := []time.Duration{400, 1000, 1600}[w.Range("reuse/gap", 3)] * time.Millisecond
+		if v := r.Spec.P("reuse", ""); len(v) >= 3 {
+			// fixed cell: "<h|p><a|d first><a|d second>"
+			hostAccepts, firstAcceptFirst, secondAcceptFirst, wait, gap = v[0] == 'h', v[1] == 'a', v[2] == 'a', 4400*time.Millisecond, time.Second
+		}
+		rid := uint32(1800)
+		rctx := fmt.Sprintf("broker=mux id-reuse accept-side=%s first=%s second=%s", map[bool]string{true: "host", false: "plugin"}[hostAccepts],
+			map[bool]string{true: "accept-first", false: "dial-first"}[firstAcceptFirst], map[bool]string{true: "accept-first", false: "dial-first"}[secondAcceptFirst])
+		accept := func() {
+			if hostAccepts {
+				h.HostAccept(r, s.cmd, rid)
+			} else {
+				s.cmd.Do("accept", fmt.Sprint(rid))
+			}
+		}
+		rendezvous := func(round string, acceptFirst bool, g time.Duration) {
+			var o h.Outcome
+			dial := func() {
+				o = r.Do(fmt.Sprintf("ReuseDial(%d)[%s]", rid, round), 60*time.Second, func() (any, error) {
+					if hostAccepts {
+						return s.cmd.Do("dial", fmt.Sprint(rid))
+					}
+					return h.HostDialPing(s.cmd, rid)
+				})
+			}
+			if acceptFirst {
+				accept()
+				time.Sleep(g)
+				dial()
+			} else {
+				var dwg sync.WaitGroup
+				dwg.Add(1)
+				go k.Trap(func() { defer dwg.Done(); dial() })
+				time.Sleep(g)
+				accept()
+				dwg.Wait()
+			}
+			quiet := w.InjectedTotal()-inj0 < 300*time.Millisecond && w.FaultCount("conn.rst") == 0
+			switch {
+			case o.Hung:
+				r.Violate("hang", "op=Dial "+rctx+" step="+round, "dial never returned")
+			case o.Err != nil:
+				if quiet {
+					r.Violate("lost-pair", rctx+" step="+round, fmt.Sprintf("accept and dial of id %d were issued %v apart, but the dial failed: %v", rid, g, o.Err))
+				}
+			case o.Val.(string) != fmt.Sprintf("id=%d", rid):
+				r.Violate("misroute", rctx+" step="+round, fmt.Sprintf("id %d answered by %q", rid, o.Val))
+			}
+		}
+		t0 := w.Now()
+		rendezvous("first", firstAcceptFirst, 100*time.Millisecond)
+		w.Probe("mux.netrpc-id-reuse")
+		if d := wait - (w.Now() - t0); d > 0 {
+			time.Sleep(d)
+		}
+		rendezvous("reuse", secondAcceptFirst, gap)
 	}
 	// the control connection still works
 	o := r.DoNoHang("Ping", 60*time.Second, kind, func() (any, error) { return nil, s.cp.Ping() })
